@@ -2,6 +2,7 @@
   C13  Redirects are well-formed and restore the originally requested URL.
   Url.lean ports Go's QueryEscape / QueryUnescape / ParseQuery / Values.Encode.
 -/
+import AuthProofs.StateInventory
 import AuthProofs.Ladder
 import AuthProofs.UrlLemmas
 import AuthModel.Generated.Facts
@@ -53,6 +54,9 @@ theorem no_cache_headers_match_source : stdHeaders = Generated.stdHeaders := by 
 
 example : queryEscape (B "a b&c=d/~?") = B "a+b%26c%3Dd%2F~%3F" := by decide
 
+/-- NO HIDDEN STATE: the model treats a check as a function of (configuration, request, store answers, clock, IdP and key-source answers, entropy); that is a faithful reading of the code only if nothing else survives from one check to the next. Regenerated on every run: every package-level variable and struct field of internal/server, internal/authz, internal/http, internal/oidc is the classified expectation, and handlers, filter, HTTP helpers and the Redis store own no mutable state (no verdict cache, handler cache, object pool, single-flight group or per-process copy of session data). -/
+theorem no_hidden_state : CheckPathInventory := check_path_inventory
+
 end AuthProps.C13
 
 #print axioms AuthProps.C13.unescape_escape
@@ -64,3 +68,4 @@ end AuthProps.C13
 #print axioms AuthProps.C13.post_login_location
 #print axioms AuthProps.C13.redirects_no_cache
 #print axioms AuthProps.C13.no_cache_headers_match_source
+#print axioms AuthProps.C13.no_hidden_state
